@@ -39,6 +39,8 @@ def obligations(tier):
         obs.append(Ob(f"C15.zero_tempo_long.K{kz}", "CH", "harness.h_sync2", "zero_tempo_long", 900, {"VF_KZ": kz},
                       funcs=(SY + "BPMEvents.timestamp_at_tick", SY + "BPMEvents._index_of_proximal_event", TK + "seconds_from_ticks_at_bpm (guards)"),
                       bounds=f"{kz} tempo events with symbolic ticks, one zero tempo at any position, every hint and tick: ValueError exactly when the zero tempo governs, the tick is negative or the hint is too late"))
+    obs.append(Ob("C15.framing", "CH", "harness.h_chart", "framing", 300, funcs=("chartparse.chart.Chart._partition_lines_by_data_section",),
+                  bounds="3 sections x <=2 symbolic body lines of any length (blank lines included): this section's parser receives exactly its own body lines"))
     return obs
 
 
